@@ -50,6 +50,7 @@ class Plan:
         self.native_module = None  # path of the *_native.py module with NATIVE dict
         self.ground = []  # (name, callable()->(ok, detail)) finite complete checks done by evaluation
         self.call_site_checks = []
+        self.probes = []  # (name, callable()->(ok, detail, count)): bounded native probes of *assumptions* (never proof)
         self.notes = []
         self.extra_obligations = []  # callables(plan) -> [Obligation]
 
